@@ -77,10 +77,8 @@ func Describe(x any) V {
 		}
 		return describeCond(stackage.Condition(*tv), "p")
 	}
-	for k, v := range opqStore {
-		if sameOpq(v, x) {
-			return V{T: 'o', Ty: k[0], ID: k[1]}
-		}
+	if k, ok := opqKeyOf(x); ok {
+		return V{T: 'o', Ty: k[0], ID: k[1]}
 	}
 	return V{T: 'o', Ty: 99, ID: 0}
 }
